@@ -63,7 +63,8 @@ CFG = {
     "id": "C13", "harness": "c13",
     "check_vo": "theories/Check/C13.vo", "prop_vo": "theories/Properties/C13.vo",
     "prop_file": "theories/Properties/C13.v",
-    "theory_files": ["theories/Graph/Lock.v", "theories/Graph/LockProofs.v", "theories/Graph/LockSemProofs.v"],
+    "theory_files": ["theories/Graph/Lock.v", "theories/Graph/LockProofs.v", "theories/Graph/LockSemProofs.v",
+                     "theories/Graph/LockNodes.v", "theories/Graph/LockAlias.v"],
     "pre": pre,
     "level_text": "Coq theorems about a lock-level model of graph.Instance's three entry points (UpdateParameter, "
                   "ParameterData, Artifact): a small-step interleaving semantics for any number of threads and any "
@@ -72,7 +73,11 @@ CFG = {
                   "exclusion; every reachable trace is linearizable w.r.t. the sequential specification with "
                   "linearization point = Acquire (hence every artifact is one snapshot, not older than any update "
                   "completed before its invocation); without the Artifact lock a mixed snapshot is reachable; the "
-                  "history checker linb decides linearizability; responses are values (a completed call keeps its "
+                  "history checker linb decides linearizability; with C11's cache-bearing evaluator (Graph/Nodes.v) run inside the "
+                  "critical sections in linearization order every artifact is the from-scratch evaluation of the node "
+                  "graph at ONE parameter state, and the node caches are a hidden state no response depends on; "
+                  "responses are values, also when they alias parameter storage (adopted buffers; the in-place "
+                  "variant is refuted) (a completed call keeps its "
                   "response in every extension of the run). Real concurrent runs (1-8 goroutines, windows of "
                   "<= 12 calls) against the real Instance are judged by the verified checker on every run; every "
                   "returned artifact / ParameterData slice is retained and read again later (end of window, after "
@@ -127,7 +132,9 @@ CFG = {
                 "decoding of artifact text / bytes / parameter JSON to numbers; the re-read of retained responses and the "
                 "per-node in-flight counters are harness code (prop_ok only compares what they report)",
                 "Go race detector (sampling; only for the three entry points the property names)"],
-    "modelled": ["sync.Mutex as an atomic Acquire (enabled when free) / Release", "each parameter read/write and the "
+    "modelled": ["the node graph and its caches: C11's model (Graph/Nodes.v, tied to the code by C11's own correspondence check)",
+                 "slice-backed responses: a heap of buffers and slice headers (Graph/LockAlias.v); adopt vs in-place upload",
+                 "sync.Mutex as an atomic Acquire (enabled when free) / Release", "each parameter read/write and the "
                  "version load/store as one atomic step (the Go memory model is not modelled)",
                  "producer evaluation = reading the parameters it lists (node caches: C11)"],
 }
